@@ -549,10 +549,13 @@ impl Scope {
         let module = module.with_forwarded();
         match as_n {
             UseAs::KeepName => {
-                let name = name
-                    .rfind([':', '/'])
-                    .map_or(name, |i| &name[i + 1..])
-                    .replace('_', "-");
+                // The last part of the url, without a leading
+                // underscore and without extension.
+                let name =
+                    name.rfind([':', '/']).map_or(name, |i| &name[i + 1..]);
+                let name = name.strip_prefix('_').unwrap_or(name);
+                let name = name.find('.').map_or(name, |i| &name[..i]);
+                let name = name.replace('_', "-");
                 self.define_module(name, module.expose(expose));
             }
             UseAs::Star => {
